@@ -857,6 +857,8 @@ class ExprMixin:
         """Resolve an expression to an LValue in state st (no forking allowed inside)."""
         if isinstance(e, ast.Name):
             n = e.id
+            if n not in st.env and n in self.spec.consts:
+                return None          # a declared module constant: a value, not a variable
 
             def get():
                 if n not in st.env:
